@@ -50,6 +50,12 @@ def materialise(tier, props_seed, want_tiny=False, n_random=0, wd=None):
             with open(p, 'w', encoding='utf8') as f:
                 f.write(render(g))
             out.append({'name': name, 'path': p, 'grammar': g, 'origin': 'tiny'})
+    for name, exp, nts, rules in corpus_mod.eps_chain_family():
+        g = corpus_mod.build(name, nts, rules, dict(fieldset='tuple', skip='none', single='enum'))
+        p = os.path.join(wd, name + '.kiki')
+        with open(p, 'w', encoding='utf8') as f:
+            f.write(render(g))
+        out.append({'name': name, 'path': p, 'grammar': g, 'origin': 'epsfam'})
     for i in range(n_random):
         name, exp, nts, rules = corpus_mod.random_grammar(rng, i)
         g = corpus_mod.build(name, nts, rules, dict(random_skip=True), rng)
@@ -357,7 +363,7 @@ def _corpus_for(tier):
     s = common.seed()
     if tier == 'quick':
         return materialise(tier, s, want_tiny=1500, n_random=300)
-    return materialise(tier, s, want_tiny=True, n_random=3000)
+    return materialise(tier, s, want_tiny=True, n_random=20000)
 
 
 def _solver_diff(items, results, k=6):
@@ -469,7 +475,7 @@ def run_tables_check(prop, tier):
         'disagreements_checked': len(R.violations) + len(R.known_hits),
         'samples': samples,
         'corpus': {'total': len(items), 'by_generate_result': kinds,
-                   'by_origin': {o: sum(1 for it in items if it['origin'] == o) for o in ('repo', 'curated', 'tiny', 'random')}},
+                   'by_origin': {o: sum(1 for it in items if it['origin'] == o) for o in ('repo', 'curated', 'tiny', 'epsfam', 'random')}},
         'vacuity_witnesses': {'perturbed_artefacts': vt, 'reported_by_solver': vd},
         'solver_queries': nq,
         'solver_time_s': round(st, 2),
